@@ -38,6 +38,7 @@ structure BlnB where
   shared : List Nat
   ctrs : List String
   req : Nat
+  mems : List Nat := []      -- the balloon's closest memory nodes
   deriving Repr
 
 structure SnapB where
@@ -184,7 +185,12 @@ def checkState (st : St) : List String :=
     | some c, some z =>
       if mi.2.2 && flag c.flags "pm" != "T" && (c.state == "created" || c.state == "running") then
         let told := parseCpuList c.rtMems
-        let errs := if !sameSet told (maskBits z) then errs ++ [s!"C04:balloons-mems-differ-from-allocator-zone {c.id} told {c.rtMems} zone {maskBits z}"] else errs
+        -- known finding: the allocator could not follow a move of the balloon's CPUs (the balloon's memory nodes are not inside the
+        -- zone it holds); anything else - e.g. a widened zone that was not delivered - is a violation
+        let bmems := ((s.members.find? (·.1 == c.id)).bind fun m => s.blns.find? (fun b => b.defn == m.2.1 && b.inst == m.2.2.1)).map (·.mems) |>.getD []
+        let errs := if !sameSet told (maskBits z) then
+            (if !sub bmems (maskBits z) then errs ++ [s!"C04:balloons-mems-differ-from-allocator-zone {c.id} told {c.rtMems} zone {maskBits z} balloon mems {bmems}"]
+             else errs ++ [s!"C04:balloons-zone-change-not-delivered {c.id} told {c.rtMems} zone {maskBits z}"]) else errs
         if (maskBits z).isEmpty then errs ++ [s!"C04:empty-mems {c.id}"] else errs
       else errs
     | _, _ => errs) errs
@@ -366,10 +372,10 @@ def step (st : St) (toks : List String) : St × List Issue :=
     match minC.toNat?, maxC.toNat?, minB.toNat?, maxB.toNat? with
     | some a, some b, some c, some d => ({ st with defs := st.defs ++ [⟨name, a, b, c, d, level, hide == "T", cls⟩] }, [])
     | _, _, _, _ => (st, [⟨.parse, "BD"⟩])
-  | ["BB", defn, inst, cpus, shared, ctrs, req] =>
+  | ["BB", defn, inst, cpus, shared, ctrs, req, mems] =>
     match inst.toNat?, pset cpus, pset shared, req.toNat? with
     | some i, some c, some sh, some r =>
-      let b : BlnB := ⟨defn, i, c, sh, (if ctrs == "-" then [] else ctrs.splitOn ","), r⟩
+      let b : BlnB := ⟨defn, i, c, sh, (if ctrs == "-" then [] else ctrs.splitOn ","), r, (pset mems).getD []⟩
       ({ st with snap := { st.snap with blns := st.snap.blns ++ [b] } }, [])
     | _, _, _, _ => (st, [⟨.parse, "BB"⟩])
   | ["BC", id, defn, inst, hide, zone, pm] =>
